@@ -22,6 +22,12 @@ class EqPolicy(RepoPolicy):
             return 'plugin'
         return None
 
+    def unknown_receiver(self, recv, meth, call, frame):
+        # the worker handle is a started multiprocessing.Process: join / start / is_alive do not raise
+        if meth in ('join', 'start', 'is_alive') and self_attr(recv) is not None and 'process' in self_attr(recv):
+            return Target('opaque', 'method:%s' % meth, role='lib')
+        return RepoPolicy.unknown_receiver(self, recv, meth, call, frame)
+
     def iter_raises(self, node, frame):
         # the ids iterator is supplied by the caller: it may raise while being advanced
         it = node.iter if isinstance(node, ast.For) else None
@@ -41,10 +47,25 @@ class EqDomain(small.SmallDomain):
         self.labels = kw.pop('labels', {})       # predicate name -> function(node, target) -> bool
         small.SmallDomain.__init__(self, *a, **kw)
         self.iter_reports = []
+        self.iter_escapes = []
+        self.yield_after_close = []
         self.at = []
+
+    def on_edge(self, node, label, dst, state):
+        if node.kind == 'yield' and label.startswith('exc:'):
+            return state.with_extra(closing=True)
+        return state
+
+    def on_exit(self, node, state):
+        small.SmallDomain.on_exit(self, node, state)
+        if node.info['exit'] != 'return' and state.extra.get('iter_open') and not state.extra.get('closing') and \
+                node.info['exit'][6:] in self.excm.ordinary and not str(state.extra.get('exc_src', '')).startswith('iterator:'):
+            self.iter_escapes.append((node, state))
 
     def on_stmt(self, node, state):
         if node.kind == 'yield':
+            if state.extra.get('closing'):
+                self.yield_after_close.append((node, state))
             return state.bump(('n', 'yield'))
         if node.kind == 'stmt' and node.info.get('what') == 'for-target' and node.frame.parent is None:
             return state.with_extra(**{'iter_open': True}).with_extra(**{})._replace_counts({('n', 'yield'): 0}) if False else \
@@ -79,6 +100,8 @@ class EqDomain(small.SmallDomain):
             recv = self_attr(c.func.value)
             if recv:
                 st = st.bump(('n', '%s.%s' % (recv, c.func.attr)))
+                if c.func.attr in ('set', 'clear'):
+                    st = st.with_extra(**{'ev:' + recv: c.func.attr})
                 self.at.append((node, t, st, state))
         return st
 
